@@ -242,16 +242,27 @@ def attribute_matrix(part):
             if val is None:
                 continue
             at = W.AT(aname)
-            for opname, build in (('Register', lambda: W.p_register(W.pie_secret(), [W.attr(at, val)])),
-                                  ('Create', lambda: W.p_create(W.sym_attrs(extra=[W.attr(at, val)]))),
-                                  ('Locate', lambda: W.p_locate([W.attr(at, val)]))):
-                w = base().clone()
+            # Locate in every situation in which the filter might never be looked at: nothing visible
+            # to the requester (empty store, a requester owning nothing), an earlier filter that
+            # already excludes everything, the attribute first / last among the filters
+            nope = W.attr(W.AT.NAME, 'no-such-name')
+            state = W.attr(W.AT.STATE, E.State.DESTROYED)
+            for opname, build, store, user in (
+                    ('Register', lambda: W.p_register(W.pie_secret(), [W.attr(at, val)]), 'base', 'alice'),
+                    ('Create', lambda: W.p_create(W.sym_attrs(extra=[W.attr(at, val)])), 'base', 'alice'),
+                    ('Locate', lambda: W.p_locate([W.attr(at, val)]), 'base', 'alice'),
+                    ('Locate/empty-store', lambda: W.p_locate([W.attr(at, val)]), 'empty', 'alice'),
+                    ('Locate/stranger', lambda: W.p_locate([W.attr(at, val)]), 'base', 'zed'),
+                    ('Locate/after-excluding-name', lambda: W.p_locate([nope, W.attr(at, val)]), 'base', 'alice'),
+                    ('Locate/after-excluding-state', lambda: W.p_locate([state, W.attr(at, val)]), 'base', 'alice'),
+                    ('Locate/before-excluding-name', lambda: W.p_locate([W.attr(at, val), nope]), 'base', 'alice')):
+                w = base().clone() if store == 'base' else W.World()
                 try:
                     before = w.raw_key()
-                    r = send(w, version, build())
+                    r = send(w, version, build(), user=user)
                     foreign = False
                     if r is None and version < added:
-                        r = send(w, version, build(), encode_as=added)
+                        r = send(w, version, build(), encode_as=added, user=user)
                         foreign = True
                     if r is None:
                         continue
